@@ -235,3 +235,163 @@ Fixpoint trun (cap : N -> N) (g : gstate) (tr : list tstep) : option gstate :=
   | [] => Some g
   | t :: r => match texec cap g t with Some g' => trun cap g' r | None => None end
   end.
+
+(* ======================================================================
+   conn.Conn on top of the table: Call / handleRPCResponse / shutdown, driven
+   by a scripted peer on the other end of a synchronous pipe.  Every script op
+   completes before the next one starts (the harness synchronises with barrier
+   frames), so the order of the table operations is the script order; what
+   remains nondeterministic is Go's select among several ready channels, which
+   the model expresses as a SET of allowed outcomes per call.
+   ====================================================================== *)
+
+(* error classes of Call results *)
+Definition E_remote : N := 20.          (* core.RemoteError, generic code; message in the payload slot *)
+Definition E_remote_notfound : N := 21. (* core.RemoteError, service_not_found *)
+Definition E_canceled : N := 30.        (* core.ErrCanceled *)
+Definition E_stopped : N := 31.         (* core.ErrStopped *)
+Definition E_read : N := 32.            (* the read loop's I/O error (peer closed the pipe) *)
+Definition E_invalid_frame : N := 34.   (* core.ErrInvalidFrame from the read loop *)
+
+Definition outcome := (bytes * N)%type.   (* (payload or remote message, error class; 0 = nil) *)
+
+Inductive cop :=
+| CStart (k : N) (payload : bytes)           (* go Call(ctx_k, payload); peer reads the request frame *)
+| CStartCanceled (k : N) (payload : bytes)   (* Call with an already cancelled context *)
+| CRespond (reqid status : N) (payload : bytes)  (* peer writes an RPC response frame: body = status ‖ payload *)
+| CRespondEmpty (reqid : N)                  (* ... with an empty body *)
+| CCancel (k : N)                            (* cancel ctx_k, wait for Call k to return *)
+| CAwait (k : N)                             (* wait for Call k to return *)
+| CReset                                     (* peer closes the pipe; wait for the conn to shut down *)
+| CGarbage                                   (* peer writes a header with a bad magic; wait for shutdown *)
+| CClose (e : N).                            (* local Conn.Close(err); e = 0 means nil *)
+
+Inductive cobs :=
+| CoNone
+| CoRead (reqid : N) (payload : bytes)       (* what the peer read from the wire *)
+| CoWrite (ok : bool)                        (* whether the peer's write was taken by the conn *)
+| CoOutcome (payload : bytes) (err : N).     (* what Call returned *)
+
+Record cstate := CState {
+  cs_p : pstate;
+  cs_next : N;                               (* Conn.nextRequestID *)
+  cs_calls : list (N * N);                   (* running calls: k -> request id; call k's channel is number k *)
+  cs_fin : list (N * list outcome);          (* calls that have returned but were not collected: allowed outcomes *)
+  cs_down : bool }.
+
+Definition cinit : cstate := CState pinit 0 [] [] false.
+
+Definition cap1 (_ : N) : N := 1.
+Definition msg_outcome (m : msg) : outcome := (m_payload m, m_err m).
+
+Definition lookup_fin (k : N) (l : list (N * list outcome)) : option (list outcome) :=
+  match find (fun e => fst e =? k) l with Some e => Some (snd e) | None => None end.
+
+Definition outcome_eqb (a b : outcome) : bool := bytes_eqb (fst a) (fst b) && (snd a =? snd b).
+Definition allowed (o : outcome) (l : list outcome) : bool := existsb (outcome_eqb o) l.
+
+(* Conn.shutdown(err): FailAll; every running call returns: its buffered response
+   if it has one, else the FailAll error or ErrStopped (ctx.Done may win the select
+   before FailAll has delivered) *)
+Definition shutdown (e : N) (s : cstate) : cstate :=
+  if cs_down s then s else
+  let fin := map (fun kc =>
+                    let '(k, _) := kc in
+                    match fst (take_first k (ps_bufs (cs_p s))) with
+                    | Some m => (k, [msg_outcome m])
+                    | None => (k, [([], e); ([], E_stopped)])
+                    end) (cs_calls s) in
+  CState (fail_all cap1 e (cs_p s)) (cs_next s) [] (fin ++ cs_fin s) true.
+
+(* handleRPCResponse *)
+Definition response_msg (reqid : N) (body : option (N * bytes)) : bytes * N :=
+  match body with
+  | None => ([], 0)
+  | Some (status, payload) =>
+      if status =? ResponseOK then (payload, 0)
+      else (payload, if status =? ResponseServiceNotFound then E_remote_notfound else E_remote)
+  end.
+
+(* one script op: new state, and whether the observation is one the model allows *)
+Definition cstep (s : cstate) (o : cop) (ob : cobs) : cstate * bool :=
+  match o with
+  | CStart k payload =>
+      let id := cs_next s + 1 in
+      if cs_down s
+      then (* Store on the closed table, Send fails with ErrStopped, Delete *)
+        (CState (delete id (store cap1 id k (cs_p s))) id (cs_calls s) (cs_fin s) true,
+         match ob with CoOutcome p e => outcome_eqb (p, e) ([], E_stopped) | _ => false end)
+      else
+        (CState (store cap1 id k (cs_p s)) id ((k, id) :: cs_calls s) (cs_fin s) false,
+         match ob with CoRead r p => (r =? id) && bytes_eqb p payload | _ => false end)
+  | CStartCanceled k payload =>
+      let id := cs_next s + 1 in
+      (CState (delete id (store cap1 id k (cs_p s))) id (cs_calls s) (cs_fin s) (cs_down s),
+       (* Scheduler.Enqueue looks at ctx.Err() before anything else *)
+       match ob with CoOutcome p e => outcome_eqb (p, e) ([], E_canceled) | _ => false end)
+  | CRespond reqid status payload =>
+      if cs_down s then (s, match ob with CoWrite false => true | _ => false end)
+      else
+        let '(p, e) := response_msg reqid (Some (status, payload)) in
+        (CState (fst (complete cap1 reqid p e (cs_p s))) (cs_next s) (cs_calls s) (cs_fin s) false,
+         match ob with CoWrite true => true | _ => false end)
+  | CRespondEmpty reqid =>
+      if cs_down s then (s, match ob with CoWrite false => true | _ => false end)
+      else
+        (CState (fst (complete cap1 reqid [] 0 (cs_p s))) (cs_next s) (cs_calls s) (cs_fin s) false,
+         match ob with CoWrite true => true | _ => false end)
+  | CCancel k =>
+      match lookup_fin k (cs_fin s) with
+      | Some al =>
+          (CState (cs_p s) (cs_next s) (cs_calls s) (filter (fun e => negb (fst e =? k)) (cs_fin s)) (cs_down s),
+           match ob with CoOutcome p e => allowed (p, e) al | _ => false end)
+      | None =>
+        match lookup k (cs_calls s) with
+        | None => (s, match ob with CoNone => true | _ => false end)
+        | Some id =>
+            let (p1, m) := recv k (cs_p s) in
+            (CState (delete id p1) (cs_next s) (filter (fun e => negb (fst e =? k)) (cs_calls s)) (cs_fin s) (cs_down s),
+             match ob with
+             | CoOutcome p e =>
+                 allowed (p, e) (([], E_canceled) :: match m with Some x => [msg_outcome x] | None => [] end)
+             | _ => false end)
+        end
+      end
+  | CAwait k =>
+      match lookup_fin k (cs_fin s) with
+      | Some al =>
+          (CState (cs_p s) (cs_next s) (cs_calls s) (filter (fun e => negb (fst e =? k)) (cs_fin s)) (cs_down s),
+           match ob with CoOutcome p e => allowed (p, e) al | _ => false end)
+      | None =>
+        match lookup k (cs_calls s) with
+        | None => (s, match ob with CoNone => true | _ => false end)
+        | Some id =>
+            let (p1, m) := recv k (cs_p s) in
+            match m with
+            | Some x =>
+                (CState p1 (cs_next s) (filter (fun e => negb (fst e =? k)) (cs_calls s)) (cs_fin s) (cs_down s),
+                 match ob with CoOutcome p e => outcome_eqb (p, e) (msg_outcome x) | _ => false end)
+            | None => (s, false)    (* the call cannot have returned: the script never awaits such a call *)
+            end
+        end
+      end
+  | CReset => (shutdown E_read s, match ob with CoNone => true | _ => false end)
+  | CGarbage => (shutdown E_invalid_frame s, match ob with CoNone => true | _ => false end)
+  | CClose e => (shutdown (if e =? 0 then E_stopped else e) s, match ob with CoNone => true | _ => false end)
+  end.
+
+Fixpoint crun (s : cstate) (ops : list (cop * cobs)) : cstate * bool :=
+  match ops with
+  | [] => (s, true)
+  | (o, ob) :: r => let (s1, ok1) := cstep s o ob in
+                    let (s2, ok2) := crun s1 r in (s2, ok1 && ok2)
+  end.
+
+(* after the script the harness closes the conn (Close(nil)) and collects every call left *)
+Definition cfinal_ok (s : cstate) (final : list (N * outcome)) : bool :=
+  let s' := shutdown E_stopped s in
+  Nat.eqb (length final) (length (cs_fin s'))
+  && forallb (fun ko => match lookup_fin (fst ko) (cs_fin s') with
+                        | Some al => allowed (snd ko) al
+                        | None => false
+                        end) final.
